@@ -78,6 +78,15 @@ def call_value(E, fv, args, kw, st, out, node):
         return call_ext(E, fv.name, args, kw, st, out, node)
     if isinstance(fv, VBound):
         return call_bound(E, fv, args, kw, st, out, node)
+    if isinstance(fv, VType):
+        res = []
+        for cname in ("HeaderItem", "CurveItem"):
+            c = fv.tag == CLS_IDS[cname]
+            if is_false(c):
+                continue
+            st2 = st.fork(); st2.assume(c); st2.trace.append("%s:type=%s" % (getattr(node, "lineno", "?"), cname))
+            res += construct(E, cname, args, kw, st2, out, node)
+        return res
     if isinstance(fv, VFunc):
         return inline_call(E, fv.node, fv.closure, args, kw, st, out, node, fv.qual)
     raise OutOfSubset("call of %r" % (fv,))
@@ -163,7 +172,7 @@ def call_builtin(E, name, args, kw, st, out, node):
     if name == "type":
         v = args[0]
         if isinstance(v, VRef):
-            return [(st, VObj(z3.Function("py_type_of_cls", I, PyObj)(z3.Select(E.heap(st, "$cls"), v.t))))]
+            return [(st, VType(z3.Select(E.heap(st, "$cls"), v.t)))]
         raise OutOfSubset("type() of %r" % (v,))
     if name in ("enumerate", "range", "zip"):
         return [(st, VTuple([VConst(("iter", name)), VTuple(args), VDict(kw)]))]
@@ -537,7 +546,9 @@ def super_call(E, cname, self_, m, args, st, out, node):
         return [(st, VNone())]
     if m == "insert":
         i = args[0].t
-        idx = z3.If(i < 0, z3.If(n0 + i < 0, 0, n0 + i), z3.If(i > n0, n0, i))
+        idx_t = z3.simplify(z3.If(i < 0, z3.If(n0 + i < 0, 0, n0 + i), z3.If(i > n0, n0, i)))
+        idx = z3.Int(fresh_name("idx"))
+        st.assume(idx == idx_t)
         new = z3.Const(fresh_name("items_ins"), items.sort())
         st.assume(z3.ForAll([k], z3.Select(new, k) == z3.If(k < idx, z3.Select(items, k), z3.If(k == idx, args[1].t, z3.Select(items, k - 1))),
                             patterns=[z3.Select(new, k)]))
@@ -557,6 +568,10 @@ def super_call(E, cname, self_, m, args, st, out, node):
             return res
         st1 = st.fork(); st1.assume(ok); st1.trace.append("%d:lx1" % node.lineno)
         idx = z3.simplify(z3.If(i < 0, n0 + i, i))
+        if not (z3.is_const(idx) or z3.is_int_value(idx)):
+            named = z3.Int(fresh_name("idx"))
+            st1.assume(named == idx)
+            idx = named
         if m == "__getitem__":
             ety = E.class_info(cname)["seq"]
             return res + [(st1, VRef(z3.Select(items, idx), ety))]
